@@ -1,18 +1,20 @@
 #!/bin/bash
 # usage: run_mutants.sh [ids...]  -- applies each seeded change to a scratch worktree of /repo's HEAD and runs every
 # registered check against it (evidence redirected to a scratch dir); prints which checks raise a violation.
-cd /verif
+V=${VERIF_DIR:-/verif}
+BASE=${BASE:-$(git -C /repo rev-parse HEAD)}   # pin the commit: /repo may move on while this runs
+cd $V
 ids=${@:-$(ls seeded)}
 checks=$(python3 -c "import json;print(' '.join(c['property_id'] for c in json.load(open('MANIFEST.json'))['checks']))")
 mkdir -p /tmp/mutrun
 for id in $ids; do
   W=/tmp/mutrun/w_$id
   git -C /repo worktree remove --force $W >/dev/null 2>&1
-  git -C /repo worktree add --detach $W HEAD >/dev/null 2>&1
-  (cd $W && git apply --3way /verif/seeded/$id/patch.diff >/dev/null 2>&1 && git reset -q) || { echo "$id: patch does not apply"; git -C /repo worktree remove --force $W; continue; }
+  git -C /repo worktree add --detach $W $BASE >/dev/null 2>&1
+  (cd $W && git apply --3way $V/seeded/$id/patch.diff >/dev/null 2>&1 && git reset -q) || { echo "$id: patch does not apply"; git -C /repo worktree remove --force $W; continue; }
   caught=""
   for c in $checks; do
-    out=$(VERIF_OUT_DIR=/tmp/mutrun/out_$id ./bin/govc check $c -repo $W 2>&1); r=$?
+    out=$(VERIF_OUT_DIR=/tmp/mutrun/out_$id VERIF_DIR=$V ./bin/govc check $c -repo $W 2>&1); r=$?
     if [ $r -eq 1 ]; then caught="$caught $c($(echo "$out" | grep -c '^VIOLATION'))"; fi
     if [ $r -ge 2 ]; then caught="$caught $c(ERR)"; fi
   done
